@@ -42,6 +42,27 @@ type QExpandTask struct {
 	Alphabet []Q      `json:"alphabet"`
 	Key      string   `json:"key"`
 	Space    bool     `json:"space"` // apply the C12 space oracle at quiescent points
+	Probe    bool     `json:"probe"` // after each transition: drain probe on the (discarded) instance
+}
+
+// drainProbe runs on an instance that is thrown away afterwards: finish the
+// reader transaction, flush, read everything, append one more event, flush,
+// read, reopen, append, read. Whatever state the history left behind, every
+// complete event must come out, in order, exactly once.
+func drainProbe(e *queuedrv.Env) {
+	steps := []Q{{K: queuedrv.QDone}, {K: queuedrv.QFlush}, {K: queuedrv.QReadAll}, {K: queuedrv.QWrite, A: 700, B: queuedrv.ChunkFirst}, {K: queuedrv.QFlush},
+		{K: queuedrv.QReadAll}, {K: queuedrv.QAck}, {K: queuedrv.QReopen}, {K: queuedrv.QWrite, A: 1200}, {K: queuedrv.QFlush}, {K: queuedrv.QReadAll}}
+	for _, op := range steps {
+		if e.Dead {
+			return
+		}
+		if e.Enabled(op) {
+			e.Apply(op)
+		}
+	}
+	if !e.Dead && e.Full == 0 && e.ReadPos != len(e.Events) {
+		e.Viol = append(e.Viol, pagedrv.Violation{Class: "deliver/missing", Msg: fmt.Sprintf("after flushing and reading everything the reader delivered events up to #%d of %d", e.ReadPos, len(e.Events))})
+	}
 }
 
 // QSucc is one explored queue transition.
@@ -134,6 +155,9 @@ func handleQExpand(raw []byte) interface{} {
 				}
 				s.Key = e.Key()
 				s.Desc = e.Describe()
+				if t.Probe {
+					drainProbe(e)
+				}
 			}
 		})
 		if err != nil {
@@ -175,11 +199,17 @@ type QPathDoc struct {
 	Cfg   QCfgSpec `json:"cfg"`
 	Path  []Q      `json:"path"`
 	Space bool     `json:"space"`
+	Probe bool     `json:"probe"`
 }
 
 // qBFS runs the search; classes selects which violation classes this check
 // owns (prefix match), others are ignored here and reported by their owner.
 func qBFS(ctx *core.Ctx, pool *par.Pool, cfg QCfgSpec, alphabet []Q, maxDepth int, space bool, owns func(class string) bool,
+	onTransition func(from *QNode, s *QSucc, isNew bool)) xstate.Stats {
+	return qBFSx(ctx, pool, cfg, alphabet, maxDepth, space, false, owns, onTransition)
+}
+
+func qBFSx(ctx *core.Ctx, pool *par.Pool, cfg QCfgSpec, alphabet []Q, maxDepth int, space, probe bool, owns func(class string) bool,
 	onTransition func(from *QNode, s *QSucc, isNew bool)) xstate.Stats {
 
 	var st xstate.Stats
@@ -198,7 +228,7 @@ func qBFS(ctx *core.Ctx, pool *par.Pool, cfg QCfgSpec, alphabet []Q, maxDepth in
 		}
 		tasks := make([][]byte, len(frontier))
 		for i, n := range frontier {
-			tasks[i], _ = json.Marshal(QExpandTask{Type: "qexpand", Cfg: cfg, Path: n.Path(), Alphabet: alphabet, Key: n.Key, Space: space})
+			tasks[i], _ = json.Marshal(QExpandTask{Type: "qexpand", Cfg: cfg, Path: n.Path(), Alphabet: alphabet, Key: n.Key, Space: space, Probe: probe})
 		}
 		var next []*QNode
 		skipped := 0
@@ -227,7 +257,7 @@ func qBFS(ctx *core.Ctx, pool *par.Pool, cfg QCfgSpec, alphabet []Q, maxDepth in
 						continue
 					}
 					ctx.Violate(v.Class, fmt.Sprintf("queue %s after [%s]: %s", cfg, queuedrv.PathString(path), v.Msg),
-						QPathDoc{Kind: "qpath", Cfg: cfg, Path: path, Space: space})
+						QPathDoc{Kind: "qpath", Cfg: cfg, Path: path, Space: space, Probe: probe})
 				}
 				isNew := false
 				if !s.Dead && s.Key != "" {
@@ -270,6 +300,9 @@ func replayQPath(raw json.RawMessage) []string {
 	env, sv, err := qReplay(cfg, d.Path, nil, false, func(e *queuedrv.Env) {
 		if d.Space && !e.Dead {
 			e.CheckSpace("replay")
+		}
+		if d.Probe && !e.Dead {
+			drainProbe(e)
 		}
 	})
 	if err != nil {
